@@ -212,7 +212,8 @@ def run(tier):
             if os.path.exists(os.path.join(cwd, "B.zck")): os.remove(os.path.join(cwd, "B.zck"))
         srv = server.start(root, max_ranges=mr, piece=piece, no_ranges=norange)
         url = "http://127.0.0.1:%d/B.zck" % srv.server_address[1]
-        st = zckdltier.run_zckdl(bd, cwd, url, src="A.zck" if A is not None else None, extra=extra)
+        nofd = ()      # (runs without standard descriptors are not exercised: see DESIGN.md section 13)
+        st = zckdltier.run_zckdl(bd, cwd, url, src="A.zck" if A is not None else None, extra=extra, nofd=nofd)
         after = open(os.path.join(cwd, "B.zck"), "rb").read() if os.path.exists(os.path.join(cwd, "B.zck")) else b""
         ev = zckdltier.tool_event(B, hB, A, T if tk != "empty" else b"", after, server.requested_ranges(srv.log, "B.zck"), st, full=norange, must=(special != "norange-fail"), bvalid=bvalid)
         if not bvalid:
@@ -226,7 +227,7 @@ def run(tier):
             ck.extra.setdefault("zckdl_full_download_status", []).append([special, st])
         srv.shutdown(); srv.server_close()
         cid = "zckdl%d" % i
-        name = "zckdl: %s pair, target %s, server %s, piece %d%s" % (kind, tk, "without range support" if norange else "max ranges %d" % mr, piece, " " + " ".join(extra) if extra else "")
+        name = "zckdl: %s pair, target %s, server %s, piece %d%s" % (kind, tk, "without range support" if norange else "max ranges %d" % mr, piece, (" " + " ".join(extra) if extra else "") + (" (started without descriptors %s)" % ",".join(map(str, nofd)) if nofd else ""))
         trace.append({"op": "begin", "name": name}); owner.append(cid)
         if st == "Hang" or (isinstance(st, int) and (st < 0 or st in (134, 139))):
             trace.append({"op": "Hang" if st == "Hang" else "Crash", "tool": "zckdl", "status": str(st)}); owner.append(cid)
